@@ -161,7 +161,7 @@ theorem featsOf_pieceFeats (s : Seq) (k : String) (fs : Table) (hf : Table.feats
   congr 1
   apply List.filter_congr
   intro f _
-  simp [classKey, Bool.and_comm]
+  simp [classKey, classKeyChars, Bool.and_comm]
 
 theorem featsOf_fragTable (s : Seq) (k : String) (f : Feature) (hf : Table.featsOf s.feats k = [f]) :
     ∀ pts, Table.featsOf (fragTable s pts) k = pieceFeatsOf f s.len pts
@@ -459,16 +459,11 @@ theorem roundTrip_restores (s : Seq) (cuts : List Int) (h : Restorable s cuts) :
     obtain ⟨k, hk, rfl⟩ := List.mem_map.mp hi
     obtain ⟨f, hf, rfl⟩ := (Table.mem_classKeys s.feats k).mp ((hkeys k).mp hk)
     exact ⟨f, hf, rfl⟩
-  have hns' : Table.noStale u = true := by
-    rw [noStale_iff]
+  have hns' : (Table.groups u).any (classNil u) = false := by
+    rw [List.any_eq_false]
     intro idx hi
     obtain ⟨f, hf, rfl⟩ := hgroups idx hi
-    rw [hP f hf]
-    refine ⟨by simp, ?_⟩
-    have := Table.groups_ne_nil u _ hi
-    cases hm : Table.memberIdx u (classKey f) with
-    | nil => exact absurd hm this
-    | cons a as => simp
+    simp [classNil, hP f hf]
   refine ⟨specRepair u, by rw [hrt, repair_eq_spec u hns'], ?_⟩
   intro k
   by_cases hk : k ∈ Table.classKeys s.feats
@@ -528,14 +523,14 @@ theorem roundTrip_restores (s : Seq) (cuts : List Int) (h : Restorable s cuts) :
         rw [hu'] at hkey
         simp only [Option.map_some, Option.some.injEq, Prod.mk.injEq] at hkey
         have hck : classKey h0 = classKey f := by
-          rw [← hg.2]; simp [classKey, hkey.1, hkey.2]
+          rw [← hg.2]; exact (classKey_congr hkey.1 hkey.2).symm
         have hh0 : h0 ∈ Table.featsOf u (classKey f) := by
           simp [Table.featsOf, List.mem_of_getElem? hu', hck]
         have := h3 h0 hh0
         rw [feature_ext f g (by rw [hkey.1, this.1]) hgl (by rw [hkey.2, this.2])]
   · have hku : k ∉ Table.classKeys u := fun h => hk ((hkeys k).mp h)
     rw [(featsOf_eq_nil_iff s.feats k).mpr hk]
-    have := locsOf_specRepair_of_not_mem u hns' k hku
+    have := locsOf_specRepair_of_not_mem u k hku
     rw [locsOf_eq_map] at this
     exact List.map_eq_nil_iff.mp this
 
